@@ -100,6 +100,8 @@ static std::vector<std::string> positions(size_t haylen) {
     std::vector<std::string> p{"none"};
     for (size_t i = 0; i < haylen + 3; ++i) p.push_back(std::to_string(i));
     p.push_back("18446744073709551615");
+    // start positions within a needle length of SIZE_MAX and around 2^63 (start + count must not wrap into the text)
+    for (const char *x : {"18446744073709551614", "18446744073709551613", "18446744073709551612", "9223372036854775808", "9223372036854775807", "4294967296"}) p.push_back(x);
     return p;
 }
 
